@@ -73,6 +73,9 @@ pub struct CaseResult {
     pub sample:      Option<Value>,
     /// Harness-level problems (exit 2).
     pub harness_errors: Vec<String>,
+    /// Fingerprints of the runs of this case (determinism self-test only).
+    #[serde(default)]
+    pub fingerprints: Vec<u64>,
     /// Free-form diagnostics, printed by the parent (first few only).
     #[serde(default)]
     pub notes:       Vec<String>,
@@ -209,11 +212,11 @@ pub fn worker_main(check: &'static dyn Check, tier: Tier) {
 }
 
 fn set_memory_limit() {
-    // 8 GiB of address space per worker: an analysis that wants more is
+    // 3 GiB of address space per worker: an analysis that wants more is
     // killed (abort) and attributed to its seed by the parent.
     let lim = libc::rlimit {
-        rlim_cur: 8 << 30,
-        rlim_max: 8 << 30,
+        rlim_cur: 3 << 30,
+        rlim_max: 3 << 30,
     };
     unsafe {
         libc::setrlimit(libc::RLIMIT_AS, &lim);
@@ -267,6 +270,7 @@ pub struct Aggregate {
     pub last_seed:   u64,
     pub slowest:     Vec<(u64, u64)>,
     pub notes:       Vec<String>,
+    pub fingerprints: BTreeMap<u64, Vec<u64>>,
 }
 
 /// Case timeout (wall clock): a safety net for loops that neither terminate
@@ -390,6 +394,7 @@ pub fn run_pool(check: &'static dyn Check, tier: Tier, base: u64, n_workers: usi
         last_seed: case_seed(base, id, indices.last().copied().unwrap_or(0)),
         slowest: Vec::new(),
         notes: Vec::new(),
+        fingerprints: BTreeMap::new(),
     };
     let mut sample_slots: BTreeMap<u64, Value> = BTreeMap::new();
     for ev in rx {
@@ -399,6 +404,9 @@ pub fn run_pool(check: &'static dyn Check, tier: Tier, base: u64, n_workers: usi
                 agg.slowest.push((r.wall_ms, idx));
                 agg.slowest.sort_by(|a, b| b.cmp(a));
                 agg.slowest.truncate(8);
+                if !r.fingerprints.is_empty() {
+                    agg.fingerprints.insert(idx, r.fingerprints.clone());
+                }
                 for n in &r.notes {
                     if agg.notes.len() < 40 {
                         agg.notes.push(format!("case {idx}: {n}"));
@@ -559,7 +567,7 @@ pub fn write_evidence(check: &dyn Check, tier: Tier, base: u64, agg: &Aggregate,
     std::fs::write(&path, serde_json::to_string_pretty(&ev).unwrap()).expect("write evidence");
 }
 
-pub fn check_main(check: &'static dyn Check, tier: Tier, workers: usize, limit: Option<u64>) -> i32 {
+pub fn check_main(check: &'static dyn Check, tier: Tier, workers: usize, limit: Option<u64>, dump: Option<String>) -> i32 {
     let base = base_seed();
     let info = check.info();
     println!("check {} tier={} VERIF_SEED={} cases={} workers={}", info.id, tier.name(), base, check.cases(tier), workers);
@@ -567,6 +575,19 @@ pub fn check_main(check: &'static dyn Check, tier: Tier, workers: usize, limit: 
     let only = limit.map(|n| (0..n.min(check.cases(tier))).collect::<Vec<u64>>());
     let agg = run_pool(check, tier, base, workers, only);
     let wall = t0.elapsed().as_secs_f64();
+    if let Some(path) = dump {
+        // Maintenance aid (never used by a registered command): write every
+        // violation of this run, unique by signature, in known-findings form.
+        let mut seen = BTreeSet::new();
+        let mut out = Vec::new();
+        for v in &agg.violations {
+            if seen.insert(v.signature.clone()) {
+                out.push(json!({"property": v.property, "signature": v.signature, "what": "", "witness": v.replay}));
+            }
+        }
+        std::fs::write(&path, serde_json::to_string_pretty(&out).unwrap()).expect("write dump");
+        println!("dumped {} distinct signatures to {path}", out.len());
+    }
     let verdict = judge(info.id, &agg, base, 5);
     write_evidence(check, tier, base, &agg, &verdict, wall);
     println!(
@@ -657,5 +678,46 @@ pub fn replay_main(checks: &[&'static dyn Check], path: &str) -> i32 {
             eprintln!("harness error: {e}");
             2
         }
+    }
+}
+
+
+/// `slx-sim selftest determinism`: the same seeds, twice, in different
+/// processes and with different worker counts; every fingerprint must agree.
+pub fn selftest_determinism(check: &'static dyn Check, tier: Tier) -> i32 {
+    let base = base_seed();
+    let t0 = Instant::now();
+    println!("selftest determinism: {} cases, VERIF_SEED={base}", check.cases(tier));
+    let a = run_pool(check, tier, base, 16, None);
+    let b = run_pool(check, tier, base, 3, None);
+    let mut bad = 0u64;
+    for (idx, fa) in &a.fingerprints {
+        if b.fingerprints.get(idx) != Some(fa) {
+            bad += 1;
+            if bad <= 10 {
+                eprintln!("harness error: case {idx} (seed {}) is not deterministic: {:x?} vs {:x?}", case_seed(base, "D00", *idx), fa, b.fingerprints.get(idx));
+            }
+        }
+    }
+    for e in a.harness_errors.iter().chain(b.harness_errors.iter()).take(10) {
+        eprintln!("harness error: {e}");
+    }
+    let crashed = a.violations.len() + b.violations.len();
+    println!(
+        "selftest determinism: cases={} runs={}+{} compared={} mismatches={} script_replays={} harness_errors={} crashed_cases={} wall={:.1}s",
+        a.cases,
+        a.runs,
+        b.runs,
+        a.fingerprints.len(),
+        bad,
+        a.probes.get("trace_replayed_as_script").copied().unwrap_or(0),
+        a.harness_errors.len() + b.harness_errors.len(),
+        crashed,
+        t0.elapsed().as_secs_f64()
+    );
+    if bad > 0 || !a.harness_errors.is_empty() || !b.harness_errors.is_empty() || a.fingerprints.len() != b.fingerprints.len() {
+        2
+    } else {
+        0
     }
 }
